@@ -98,13 +98,23 @@ Definition flatten (t : nat) (mp : nat -> nat) : (nat -> nat) * nat :=
   fold_left (fun st i => if Nat.eqb (fst st i) i then (upd (fst st) i (snd st), S (snd st))
                          else (upd (fst st) i (fst st (fst st i)), snd st)) (seq 0 t) (mp, 0).
 
-(* (inGroup, multGroup, firstGroup, nextGroup, nGroups) *)
-Definition fof_tail_model (n : nat) (st : mstate) : list Z * list Z * list Z * list Z * Z :=
+(* (inGroup, multGroup, firstGroup, nextGroup, nGroups) as arrays *)
+Definition fof_tail_arrs (n : nat) (st : mstate) : arr * arr * arr * arr * nat :=
   let '(mp, ng) := flatten (m_n st) (m_map st) in
   let ing : arr := fun i => match m_in st i with Some g => Z.of_nat (mp g) | None => (-1)%Z end in
   let '(first, next) := build_lists (rev (seq 0 n)) ing (const (-1)%Z) (const (-1)%Z) in
   let mult := mult_loop (S n) ng first next in
+  (ing, mult, first, next, ng).
+
+Definition fof_tail_model (n : nat) (st : mstate) : list Z * list Z * list Z * list Z * Z :=
+  let '(ing, mult, first, next, ng) := fof_tail_arrs n st in
   (tolist n ing, tolist n mult, tolist n first, tolist n next, Z.of_nat ng).
+
+(* spheregroup() after chunk.assign: merge the provisional groups of all cells, finish friendsoffriends,
+   renumber.  pgs = the provisional groups (members as point indices) in the order they are created *)
+Definition spheregroup_model (n : nat) (pgs : list (list nat)) : out4 :=
+  let '(ing, mult, first, next, ng) := fof_tail_arrs n (merge_model pgs) in
+  renumber_model n ing first next ng.
 
 (* ------------------------------------------------------------------ correspondence *)
 (* one recorded cell: chunkList[i][j], and the groups object computed for it *)
@@ -130,15 +140,28 @@ Definition fof_agree (n : nat) (cells : list cellrec) (fof : list Z * list Z * l
   let '(i2, m2, f2, n2, g2) := fof in
   listZ_eqb i1 i2 && listZ_eqb m1 m2 && listZ_eqb f1 f2 && listZ_eqb n1 n2 && (g1 =? g2)%Z.
 
+Definition mkcell (l : list Z) (ng : Z) (i f nx : list Z) : cellrec :=
+  {| cr_list := map Z.to_nat l; cr_ng := ng; cr_in := i; cr_first := f; cr_next := nx |}.
+
+(* ------------------------------------------------------------------ the whole of spheregroup() after chunk.assign *)
+(* provisional groups of one cell: run class groups on the cell's points, walk its lists *)
+Definition cell_pgs (lnk : nat -> nat -> bool) (c : list nat) : list (list nat) :=
+  let '(ng, (ing, mult, first, next)) := groups_model (length c) lnk in
+  pgs_of_cell c (Z.to_nat ng) (arr_of first) (arr_of next).
+
+(* cells = the non-empty chunkList entries in the order friendsoffriends visits them *)
+Definition spheregroup_full (n : nat) (link : nat -> nat -> bool) (cells : list (list nat)) : out4 :=
+  spheregroup_model n (flat_map (fun c => cell_pgs (fun a b => link (nth a c 0) (nth b c 0)) c) cells).
+
 (* verdict bits: +1 some model differs from the implementation; +2 output is not the specification's *)
 Definition run_case2 (x : case * (list cellrec * option (list Z * list Z * list Z * list Z * Z))) : Z :=
   let '(c, (cells, fof)) := x in
   let n := length (c_adj c) in
   let algo_ok := forallb (groups_agree (c_adj c)) cells &&
-                 match fof with Some f => fof_agree n cells f | None => true end in
+                 match fof with Some f => fof_agree n cells f | None => true end &&
+                 (* the complete model, from the adjacency matrix and the recorded cell lists alone *)
+                 out4_eqb (spheregroup_full n (link_of (c_adj c)) (map cr_list cells)) (c_out c) in
   ((if renumber_agrees c && algo_ok then 0 else 1) + (if spec_ok c then 0 else 2))%Z.
 Definition run_cases2 (xs : list (case * (list cellrec * option (list Z * list Z * list Z * list Z * Z)))) : list Z :=
   map run_case2 xs.
 
-Definition mkcell (l : list Z) (ng : Z) (i f nx : list Z) : cellrec :=
-  {| cr_list := map Z.to_nat l; cr_ng := ng; cr_in := i; cr_first := f; cr_next := nx |}.
